@@ -198,3 +198,73 @@ Proof.
     destruct (max_tok <=? n); [reflexivity |].
     fold i1. rewrite ST. cbn [bind fst snd]. reflexivity.
 Qed.
+
+(* ---------------------------------------------------------------------------------------------- *)
+(* the whole loop: success within the token limit, E1007 beyond it *)
+Lemma loop_ok bs max_tok : forall k its, (length its <= k)%nat -> forall fuel i n toks cms et ec,
+  items_ok its = true -> reads bs i its et ec -> (length (render_items its) < fuel)%nat ->
+  n + N.of_nat (length et) <= max_tok ->
+  lex_loop bs max_tok fuel (render_items its, i) n toks cms =
+  Val (toks ++ et ++ [eof_at (i + N.of_nat (length (render_items its)))], cms ++ ec).
+Proof.
+  induction k as [|k IH]; intros its Hk fuel i n toks cms et ec OK R Hf LIM; (destruct fuel as [|f]; [lia |]);
+    (destruct (loop_step bs max_tok its f i n toks cms et ec OK R Hf)
+      as [[-> E]|(tok & et' & rest' & i1 & i2 & coms & ec' & -> & -> & OK' & R' & LI & LF & POS & E)];
+     [rewrite E; reflexivity |]); [exfalso; lia |].
+  rewrite E. cbn [length] in LIM.
+  replace (max_tok <=? n) with false by (symmetry; apply N.leb_gt; lia).
+  rewrite (IH rest' ltac:(lia) f i2 (n + 1) _ _ et' ec' OK' R' LF ltac:(lia)).
+  rewrite POS, <- !app_assoc. reflexivity.
+Qed.
+
+Lemma loop_limit bs max_tok : forall k its, (length its <= k)%nat -> forall fuel i n toks cms et ec,
+  items_ok its = true -> reads bs i its et ec -> (length (render_items its) < fuel)%nat ->
+  n <= max_tok -> max_tok < n + N.of_nat (length et) ->
+  exists l c, lex_loop bs max_tok fuel (render_items its, i) n toks cms = Err E_TokenLimitReached l c.
+Proof.
+  induction k as [|k IH]; intros its Hk fuel i n toks cms et ec OK R Hf LE LIM; (destruct fuel as [|f]; [lia |]);
+    (destruct (loop_step bs max_tok its f i n toks cms et ec OK R Hf)
+      as [[-> E]|(tok & et' & rest' & i1 & i2 & coms & ec' & -> & -> & OK' & R' & LI & LF & POS & E)];
+     [cbn [length] in LIM; lia |]); [exfalso; lia |].
+  rewrite E. cbn [length] in LIM.
+  destruct (max_tok <=? n) eqn:B.
+  - unfold err_at. destruct (to_loc bs i1) as [l c]. exists l, c. reflexivity.
+  - apply N.leb_gt in B. apply (IH rest' ltac:(lia) f i2 (n + 1) _ _ et' ec' OK' R' LF); lia.
+Qed.
+
+(* ---------------------------------------------------------------------------------------------- *)
+(* lex_faithful, raw form *)
+Definition raw_tokens (ls : list lexeme) (seps : list sep) : list token := fst (expect_all ls seps).
+Definition raw_comments (ls : list lexeme) (seps : list sep) : list comment := snd (expect_all ls seps).
+
+Theorem lex_faithful_raw max_in max_tok ls seps :
+  wf ls seps ->
+  N.of_nat (length (interleave ls seps)) <= max_in -> N.of_nat (length (raw_tokens ls seps)) <= max_tok ->
+  tokenize_with max_in max_tok (interleave ls seps) =
+  Val (raw_tokens ls seps ++ [eof_at (N.of_nat (length (interleave ls seps)))], raw_comments ls seps).
+Proof.
+  intros [_ OK] SZ LIM. unfold tokenize_with.
+  replace (max_in <? N.of_nat (length (interleave ls seps))) with false by (symmetry; apply N.ltb_ge; exact SZ).
+  unfold raw_tokens, raw_comments, expect_all, interleave in *.
+  set (its := items_of ls seps) in *.
+  pose proof (reads_expect (render_items its) (length its) its 0 (le_n _)) as R.
+  rewrite (loop_ok (render_items its) max_tok (length its) its (le_n _) _ 0 0 [] [] _ _ OK R); [reflexivity | lia | lia].
+Qed.
+
+(* the token limit, as an equivalence: E1007 exactly when the text has more raw tokens than the limit (so a text
+   with exactly max_tok tokens is not rejected for that reason) *)
+Theorem token_limit_iff max_in max_tok ls seps :
+  wf ls seps -> N.of_nat (length (interleave ls seps)) <= max_in ->
+  ((exists l c, tokenize_with max_in max_tok (interleave ls seps) = Err E_TokenLimitReached l c) <->
+   max_tok < N.of_nat (length (raw_tokens ls seps))).
+Proof.
+  intros WF SZ. split.
+  - intros (l & c & E). destruct (N.lt_ge_cases max_tok (N.of_nat (length (raw_tokens ls seps)))) as [H|H]; [exact H |].
+    rewrite (lex_faithful_raw max_in max_tok ls seps WF SZ H) in E. discriminate E.
+  - intros LIM. destruct WF as [_ OK]. unfold tokenize_with.
+    replace (max_in <? N.of_nat (length (interleave ls seps))) with false by (symmetry; apply N.ltb_ge; exact SZ).
+    unfold raw_tokens, expect_all, interleave in *.
+    set (its := items_of ls seps) in *.
+    pose proof (reads_expect (render_items its) (length its) its 0 (le_n _)) as R.
+    apply (loop_limit (render_items its) max_tok (length its) its (le_n _) _ 0 0 [] [] _ _ OK R); lia.
+Qed.
